@@ -97,9 +97,16 @@ def sum_stats(stats_list):
 
 def subbatch_case(rxns):
     n_jobs = 1
+    ids = None
     if isinstance(rxns, dict):
-        rxns, n_jobs = rxns["rxns"], rxns["n_jobs"]
-    out = pipeline.run({"rxns": list(rxns), "n_jobs": n_jobs})
+        rxns, n_jobs, ids = rxns["rxns"], rxns.get("n_jobs", 1), rxns.get("ids")
+    data = list(rxns)
+    if ids == "reversed":
+        # dict rows that bring their own id column whose values are not the row positions
+        data = [{"reaction": r, "id": len(rxns) - 1 - i, "note": "row {}".format(i)} for i, r in enumerate(rxns)]
+    elif ids == "text":
+        data = [{"reaction": r, "id": "R{}".format(100 + i)} for i, r in enumerate(rxns)]
+    out = pipeline.run({"rxns": data, "n_jobs": n_jobs})
     bad = compare_batch(list(rxns), out["rows"], "one batch")
     want = sum_stats([alone(r)[1] for r in rxns])
     if out["stats"] != want:
@@ -256,10 +263,11 @@ def run(tier, seed):
     wsubs = [list(t) for t in (subs if thorough else covering_triples()) if len(t) == 3]
     wsubs += [list(p) for k in (3, 4, 5) for p in itertools.permutations(mcs_bound, k)][:: (1 if thorough else 7)]
     wjobs = [{"rxns": t, "n_jobs": nj} for t in wsubs for nj in (2, 3)]
+    wjobs += [{"rxns": list(t), "ids": kind} for t in subs if len(t) == 2 for kind in ("reversed", "text")][:: (1 if thorough else 3)]
     rw = pmap("checks.c06:subbatch_case", wjobs, chunk=4, seed=seed, timeout=7200)
     for j, bad in zip(wjobs, rw):
         for b in bad:
-            res.add(Violation("sub-batch", j, None, None, ["n_jobs"] + b["key"], b["what"] + " [n_jobs={}]".format(j["n_jobs"])))
+            res.add(Violation("sub-batch", j, None, None, ["n_jobs"] + b["key"], b["what"] + " [n_jobs={} ids={}]".format(j.get("n_jobs", 1), j.get("ids"))))
     full = B06 + [EXTRA]
     pj = [{"rxns": full, "bs": bs} for bs in range(1, len(full) + 1)]
     if thorough:
@@ -346,7 +354,7 @@ def run(tier, seed):
 def replay(v):
     c = v.case
     if v.sub == "sub-batch":
-        pre = ["n_jobs"] if "n_jobs" in c else []
+        pre = ["n_jobs"] if ("n_jobs" in c or "ids" in c) else []
         return [Violation(v.sub, c, None, None, pre + b["key"], b["what"]) for b in subbatch_case(c if pre else c["rxns"]) if pre + b["key"] == v.key]
     if v.sub == "partition":
         if c["bs"] == "all":
